@@ -140,9 +140,9 @@ def _classify_lnotab_diff(code, r, path):
                 for o in range(first, off + 2, 2):
                     if refs.addr2line(x, o) != refs.addr2line(y, o):
                         return "co_lnotab"
-        # a moved entry may merge with the next instruction's own entry: at most one entry
-        # fewer per mid-instruction entry, never more entries
-        if not (0 <= len(x.co_lnotab) - len(y.co_lnotab) <= 2 * len(mids)):
+        # a moved entry may merge with the next instruction's own entry (one entry fewer) or
+        # cancel against it (-1 moved onto a +1: both vanish, two entries fewer); never more entries
+        if not (0 <= len(x.co_lnotab) - len(y.co_lnotab) <= 4 * len(mids)):
             return "co_lnotab"
         return "co_lnotab:mid_instruction_entry"
     except Exception:
